@@ -108,7 +108,11 @@ func matchReviewed(c *Ctx, table map[string]string, funcs []*ssa.Function, obsBy
 	for _, fn := range funcs {
 		fnByKey[c.FuncKey(fn)] = fn
 		for _, ob := range obsByFn[fn] {
-			allSites[ob.Site] = true
+			// an entry is taken by the construct at its site only if that construct needs it: when the
+			// ordinal now names a construct the facts discharge, the entry is free to follow the one that moved
+			if !ob.Discharged || table[ob.Site] == "" {
+				allSites[ob.Site] = true
+			}
 			if !ob.Discharged && table[ob.Site] != "" {
 				used[ob.Site] = true
 			}
